@@ -1,9 +1,10 @@
 """C22 — public API calls never modify the caller's arguments.
 
 Proof: Props/C22.v (`frame`: no in-place modification of a variable that may alias a caller object => the caller's heap is
-unchanged for ALL fault positions; per-API skeleton instances; validate_dataset REFUTED with witnesses).
+unchanged for ALL fault positions; instances for the skeletons of all six API functions as the code is NOW; the skeleton of
+validate_dataset before the repair commit is kept as a refuted regression witness).
 Model: Model/Ownership.v (hand-written Copy/Alias/Mutate skeletons of run, run_sdmx, semantic_analysis, validate_dataset,
-prettify, generate_sdmx).
+prettify, generate_sdmx, faithful to the current code).
 Tie K: every generated call (valid and invalid inputs: bad types, duplicates, missing columns, BOM-prefixed labels, extra
 columns, "" in numeric columns, wrong scripts, bad structures) and a sample of corpus scripts is executed with a DEEP
 snapshot of every argument before and after (dict/list structure and identity, DataFrame labels / dtypes / index / cell
@@ -479,9 +480,11 @@ def ast_scan():
     return sites
 
 
-MODEL_SITES = [("files/parser/__init__.py", "_validate_pandas", "data.columns = ..."), ("files/parser/__init__.py", "_validate_pandas", "data[name] = ..."),
-               ("files/parser/__init__.py", "_validate_pandas", "data[comp_name] = ..."),
-               ("API/__init__.py", "run", "datapoints[url_name] = ..."), ("API/__init__.py", "run", "del datapoints[url_name]")]
+# in-place writes that reach a caller object according to Model/Ownership.v (only run()'s URL branch, model-only)
+MODEL_SITES = [("API/__init__.py", "run", "datapoints[url_name] = ..."), ("API/__init__.py", "run", "del datapoints[url_name]")]
+# functions whose skeleton has NO write to a caller object although they receive one
+MODEL_CLEAN_FUNCS = [("files/parser/__init__.py", "_validate_pandas"), ("duckdb_transpiler/io/_io.py", "register_dataframes"),
+                     ("duckdb_transpiler/io/_io.py", "extract_datapoint_paths")]
 
 
 # --------------------------------------------------------------------------------------------------------- run
@@ -606,8 +609,11 @@ def _run(ctx, E, calls, n_corpus, rng, work):
         sites = ast_scan()
         ctx.cov["ast_scan_sites"] = [f"{f}:{fn}:{ln}: {w}" for f, fn, ln, w in sites]
         missing = [m for m in MODEL_SITES if not any(f == m[0] and fn == m[1] and w == m[2] for f, fn, ln, w in sites)]
-        ctx.cov["ast_scan_secondary"] = ("every Mutate site of the model is listed by the scan" if not missing
-                                         else f"secondary tie unavailable: model sites not found by the scan: {missing}")
+        unexpected = [f"{f}:{fn}:{ln}: {w}" for f, fn, ln, w in sites if (f, fn) in MODEL_CLEAN_FUNCS]
+        ctx.cov["ast_scan_secondary"] = ("every Mutate-on-caller site of the model is listed by the scan and the scan lists none in "
+                                         "_validate_pandas / register_dataframes / extract_datapoint_paths" if not missing and not unexpected
+                                         else f"secondary tie disagrees (never decides): model sites not found {missing}; "
+                                              f"sites in functions the model holds clean {unexpected}")
     except Exception as e:
         ctx.cov["ast_scan_secondary"] = f"secondary tie unavailable: {type(e).__name__}: {e}"
     ctx.log(f"{hist['calls']} calls {hist['by_api']}; outcomes {len(hist['outcomes'])} kinds ({hist['outcomes'].get('ok', 0)} ok); content mutations "
